@@ -206,6 +206,9 @@ func GNDirName(name *der.Node) *der.Node {
 	return der.Cons(2, 4, name)
 }
 func GNOther(oid []int, val *der.Node) *der.Node {
+	if val == nil {
+		return der.Cons(2, 0, der.OID(oid...), der.Cons(2, 0))
+	}
 	return der.Cons(2, 0, der.OID(oid...), der.Cons(2, 0, val))
 }
 
